@@ -561,3 +561,148 @@ def functions_by_inspection(ctx):
     ctx.extra["inspected"]["functions_without_array_recipe"] = len(skipped)
     for f in sorted(set(skipped) - called):
         ctx.count("function-not-called:" + skipped[f].split(" '")[0][:40])
+
+
+# ----------------------------------------------------------------------------------------------
+# public entry points of the kernels that the class specs do not reach (non-default arguments)
+# ----------------------------------------------------------------------------------------------
+
+def kernel_drive(ctx, watch):
+    """calls, under the kernel watch, public methods with the non-default arguments that select
+    the remaining compiled kernels; every caller array is compared with its copy afterwards and
+    every object involved is in the watch's pool"""
+    from pyunicorn.core import Network, GeoGrid, SpatialNetwork, InteractingNetworks, ResNetwork, Grid
+    from pyunicorn.timeseries import RecurrencePlot, Surrogates, VisibilityGraph
+    from pyunicorn.funcnet import CouplingAnalysis
+    rng = ctx.rng
+    for dt in (np.float64, np.float32):
+        r = np.random.RandomState(rng.randrange(2 ** 31))
+        held = {}
+
+        def arr(name, a):
+            a = np.asarray(a)
+            if a.dtype.kind == "f":
+                a = a.astype(dt)
+            held[name] = (a, a.copy())
+            return a
+        n = 8
+        A = (r.rand(n, n) < 0.6).astype(int)
+        A = np.triu(A, 1)
+        A = arr("adjacency", A + A.T)
+        ts = arr("time_series", r.rand(30) * 3)
+        ts_nan = ts.copy()
+        ts_nan[[3, 11]] = np.nan
+        ts_nan = arr("time_series_nan", ts_nan)
+        od = arr("original_data", r.rand(3, 24) * 3)
+        res = np.triu(np.asarray(A, dtype=float) * (r.rand(n, n) + 0.5), 1)
+        res = arr("resistances", res + res.T)
+        space = arr("space_seq", r.rand(2, n))
+        cdata = arr("coupling_data", r.rand(40, 3))
+
+        def net():
+            return Network(adjacency=A, node_weights=arr("node_weights", r.rand(n) + 0.5),
+                           silence_level=3)
+
+        def snet():
+            return SpatialNetwork(Grid(np.arange(3.), space, silence_level=3), adjacency=A,
+                                  silence_level=3)
+
+        def inet():
+            return InteractingNetworks(adjacency=A, silence_level=3)
+        l1, l2 = [0, 1, 2, 3], [4, 5, 6, 7]
+        plans = [
+            ("Network.local_cliquishness(4)", lambda: net().local_cliquishness(4)),
+            ("Network.local_cliquishness(5)", lambda: net().local_cliquishness(5)),
+            ("Network.nsi_betweenness", lambda: net().nsi_betweenness()),
+            ("Network.newman_betweenness", lambda: net().newman_betweenness()),
+            ("Network.nsi_newman_betweenness", lambda: net().nsi_newman_betweenness()),
+            ("InteractingNetworks.nsi_cross_local_clustering",
+             lambda: inet().nsi_cross_local_clustering(l1, l2)),
+            ("InteractingNetworks.nsi_cross_transitivity",
+             lambda: inet().nsi_cross_transitivity(l1, l2)),
+            ("InteractingNetworks.cross_local_clustering",
+             lambda: inet().cross_local_clustering(l1, l2)),
+            ("InteractingNetworks.cross_transitivity", lambda: inet().cross_transitivity(l1, l2)),
+            ("InteractingNetworks.RandomlySetCrossLinks",
+             lambda: InteractingNetworks.RandomlySetCrossLinks(inet(), l1, l2, number_cross_links=3)),
+            # (the rewiring kernels loop until enough random swaps succeed and need not terminate
+            #  on arbitrary inputs; they are driven by C17's check)
+            ("ResNetwork.vertex_current_flow_betweenness",
+             lambda: ResNetwork(res, silence_level=3).vertex_current_flow_betweenness(1)),
+            ("ResNetwork.edge_current_flow_betweenness",
+             lambda: ResNetwork(res, silence_level=3).edge_current_flow_betweenness()),
+            ("CouplingAnalysis.cross_correlation(max)",
+             lambda: CouplingAnalysis(cdata, silence_level=3).cross_correlation(tau_max=2, lag_mode="max")),
+            ("CouplingAnalysis.symmetrize_by_absmax",
+             lambda: (lambda c: c.symmetrize_by_absmax(*c.cross_correlation(tau_max=2, lag_mode="max")))(
+                 CouplingAnalysis(cdata, silence_level=3))),
+            ("CouplingAnalysis.mutual_information(knn)",
+             lambda: CouplingAnalysis(cdata, silence_level=3).mutual_information(
+                 tau_max=1, estimator="knn", knn=3)),
+            ("Surrogates.twin_surrogates",
+             lambda: Surrogates(od, silence_level=3).twin_surrogates(1, 2, 1, 0.4, min_dist=2)),
+            ("Surrogates.test_pearson_correlation", lambda: (lambda s: s.test_pearson_correlation(
+                s.original_data, s.white_noise_surrogates()))(Surrogates(od, silence_level=3))),
+            ("Surrogates.test_mutual_information", lambda: (lambda s: s.test_mutual_information(
+                s.original_data, s.white_noise_surrogates(), n_bins=4))(Surrogates(od, silence_level=3))),
+            ("VisibilityGraph(missing_values)",
+             lambda: VisibilityGraph(ts_nan, missing_values=True, silence_level=3).degree()),
+            ("VisibilityGraph(horizontal)",
+             lambda: VisibilityGraph(ts, horizontal=True, silence_level=3).degree()),
+            ("VisibilityGraph.retarded/advanced clustering",
+             lambda: (lambda v: (v.retarded_local_clustering(), v.advanced_local_clustering()))(
+                 VisibilityGraph(ts, silence_level=3))),
+        ]
+        for metric in ("supremum", "euclidean", "manhattan"):
+            plans += [
+                (f"RecurrencePlot.bootstrap_distance_matrix({metric})",
+                 lambda metric=metric: RecurrencePlot.bootstrap_distance_matrix(
+                     arr("embedding", r.rand(20, 2)), metric, 30)),
+                (f"RecurrencePlot({metric}, sparse_rqa)",
+                 lambda metric=metric: (lambda o: (o.diagline_dist(), o.vertline_dist()))(
+                     RecurrencePlot(ts, metric=metric, threshold=0.5, sparse_rqa=True, dim=2, tau=1,
+                                    silence_level=3))),
+                (f"RecurrencePlot({metric}, sparse_rqa, missing_values)",
+                 lambda metric=metric: (lambda o: (o.diagline_dist(), o.vertline_dist()))(
+                     RecurrencePlot(ts_nan, metric=metric, threshold=0.5, sparse_rqa=True,
+                                    missing_values=True, silence_level=3))),
+                (f"RecurrencePlot({metric}, missing_values)",
+                 lambda metric=metric: (lambda o: (o.diagline_dist(), o.vertline_dist(),
+                                                   o.white_vertline_dist()))(
+                     RecurrencePlot(ts_nan, metric=metric, threshold=0.5, missing_values=True,
+                                    silence_level=3))),
+                (f"RecurrencePlot({metric}, adaptive_neighborhood_size)",
+                 lambda metric=metric: RecurrencePlot(
+                     ts, metric=metric, adaptive_neighborhood_size=0.2, dim=2, tau=2,
+                     silence_level=3).recurrence_rate()),
+                (f"RecurrencePlot({metric}).twin_surrogates",
+                 lambda metric=metric: RecurrencePlot(
+                     ts, metric=metric, threshold=0.8, silence_level=3).twin_surrogates(1, 2)),
+                (f"RecurrencePlot({metric}).resample_diagline_dist",
+                 lambda metric=metric: RecurrencePlot(
+                     ts, metric=metric, threshold=0.8, silence_level=3).resample_diagline_dist(20)),
+            ]
+        plans.append(("RecurrencePlot.rejection_sampling",
+                      lambda: RecurrencePlot.rejection_sampling(arr("dist", r.rand(20) + 0.1), 10)))
+        plans.append(("RecurrencePlot.embed_time_series",
+                      lambda: RecurrencePlot.embed_time_series(ts, 2, 1)))
+        plans.append(("Surrogates.recurrence_plot",
+                      lambda: Surrogates.recurrence_plot(arr("embedding2", r.rand(20, 2)), 0.5,
+                                                         silence_level=3)))
+        for name, call in plans:
+            watch.pool = [a for a, _ in held.values()]
+            watch.context = f"{name} [{dt.__name__}]"
+            try:
+                quiet(call)
+            except Exception as ex:  # noqa
+                ctx.count(f"kernel-drive-raises:{name}:{type(ex).__name__}")
+            ctx.case(("kernel-drive", name, dt.__name__), True)
+            for k, (a, a0) in list(held.items()):
+                if a.shape != a0.shape or _changed(a, a0):
+                    ctx.fail({"kind": "caller-array-edited", "call": name, "argument": k},
+                             f"{name} [{dt.__name__}] modifies the caller's array `{k}`",
+                             {"call": name, "dtype": dt.__name__, "argument": k,
+                              "values_before": brief(a0.reshape(-1)[:8]),
+                              "values_after": brief(a.reshape(-1)[:8])})
+                    held[k] = (a, a.copy())
+        watch.pool = []
